@@ -45,9 +45,9 @@ Definition d_trans (x : sx) : option trans :=
 
 Definition d_opts (x : sx) : option opts :=
   match x with
-  | L [a; b; c; d; e] =>
+  | L [a; b; c; d; e; f] =>
       do a' <- d_bool a; do b' <- d_bool b; do c' <- d_bool c; do d' <- d_bool d; do e' <- d_bool e;
-      Some (mkO a' b' c' d' e')
+      do f' <- d_bool f; Some (mkO a' b' c' d' e' f')
   | _ => None
   end.
 
@@ -55,6 +55,7 @@ Definition d_op (x : sx) : option op :=
   match x with
   | L [N 0; e] => do e' <- d_str e; Some (Ev e')
   | L [N 1; s] => do s' <- d_stree s; Some (AddState s')
+  | L [N 4; l] => do l' <- d_list d_stree l; Some (AddStates l')
   | L [N 2; t] => do t' <- d_trans t; Some (AddTrans t')
   | L [N 3; e; s; d] =>
       do e' <- d_str e; do s' <- d_option d_name s; do d' <- d_option d_name d; Some (RemTrans e' s' d')
